@@ -539,6 +539,8 @@ type Cell struct {
 	Warn bool
 	// Why explains unjudged cells
 	Why string
+	// Multi: more than two candidates
+	Multi bool
 }
 
 type Table struct {
@@ -602,11 +604,87 @@ func (g *Grammar) resolve(x int, c *Cell) {
 		return
 	}
 	if len(c.Cands) > 2 {
-		c.Why = "more than two candidates: folding order is not specified"
-		// a warning is due if no pair is resolvable by precedence at all;
-		// left unjudged
+		g.resolveMulti(x, c)
 		return
 	}
+	g.resolvePair(x, c)
+}
+
+// resolveMulti: the statement of C04 is about pairs. A cell with more than
+// two candidates is judged only when it does not matter in which order the
+// pairs are taken: the candidates are folded with the two-way rule in every
+// order (running winner against the next candidate); if every comparison on
+// the way is one the statement decides, none of them ends in the %nonassoc
+// error, and all orders end with the same winner, that winner is prescribed.
+func (g *Grammar) resolveMulti(x int, c *Cell) {
+	c.Multi = true
+	n := len(c.Cands)
+	if n > 5 {
+		c.Why = "more than five candidates"
+		return
+	}
+	for _, a := range c.Cands {
+		if a.Kind == Accept {
+			c.Why = "conflict with accept"
+			return
+		}
+	}
+	pair := func(a, b Act) (Act, bool, bool) {
+		if a.Kind == Reduce && b.Kind == Shift {
+			a, b = b, a
+		}
+		if a.Kind == Reduce && b.Kind == Reduce && a.Arg > b.Arg {
+			a, b = b, a
+		}
+		pc := &Cell{Cands: []Act{a, b}}
+		g.resolvePair(x, pc)
+		return pc.Want, pc.Judged && pc.Want.Kind != Error, pc.Warn
+	}
+	perm := make([]int, n)
+	for i := range perm {
+		perm[i] = i
+	}
+	var winner Act
+	first, ok, warn := true, true, false
+	var rec func(k int)
+	rec = func(k int) {
+		if !ok {
+			return
+		}
+		if k == n {
+			w := c.Cands[perm[0]]
+			for _, i := range perm[1:] {
+				nw, judged, wn := pair(w, c.Cands[i])
+				if !judged {
+					ok = false
+					return
+				}
+				warn = warn || wn
+				w = nw
+			}
+			if first {
+				winner, first = w, false
+			} else if w != winner {
+				ok = false
+			}
+			return
+		}
+		for i := k; i < n; i++ {
+			perm[k], perm[i] = perm[i], perm[k]
+			rec(k + 1)
+			perm[k], perm[i] = perm[i], perm[k]
+		}
+	}
+	rec(0)
+	if !ok {
+		c.Why = "more than two candidates and the outcome depends on the order in which pairs are compared (or a pair is not decided by the statement)"
+		return
+	}
+	c.Judged, c.Want, c.Warn = true, winner, warn
+}
+
+// resolvePair applies the rule to a cell with exactly two candidates.
+func (g *Grammar) resolvePair(x int, c *Cell) {
 	a, b := c.Cands[0], c.Cands[1]
 	if a.Kind == Accept || b.Kind == Accept {
 		c.Why = "conflict with accept"
